@@ -1,12 +1,13 @@
-SPECIFICATION Spec
+SPECIFICATION GSpec
 CONSTANTS
   Names <- MCNames
   MaxSteps = 9
+  GenSteps = 4
   FIX_CLOSE = TRUE
+  FIX_BYUSER = TRUE
   USER_NESTS = FALSE
   USER_REMOVES_ENTRIES = FALSE
   USER_RENAMES = TRUE
   RECHECK_ON_RENAME = TRUE
-  FIX_BYUSER = TRUE
-INVARIANTS FdsMatch ListOK AllGone Released CreateOnce Covered
+INVARIANT Emit
 CHECK_DEADLOCK FALSE
